@@ -212,6 +212,23 @@ def encode(spec, res):
 
 PRELUDE = ('From Coq Require Import List Arith Bool.\nFrom MM Require Import lib.ListSet model.Elig harness.RunCommon harness.RunC16.\n'
            'Import ListNotations.\n')
+GPRELUDE = ('From Coq Require Import List Arith Bool ZArith.\nFrom MM Require Import lib.ListSet model.Elig model.EligFrame harness.RunCommon '
+            'harness.RunC16.\nImport ListNotations.\nOpen Scope Z_scope.\n')
+
+
+def gencode(spec, res):
+  """A query of an accepted table for the translated get_eligible_assignments (None when there is nothing to compare)."""
+  if res.get('outcome') != 'accept' or 'idx' not in res:
+    return None
+  idnum = {}
+  for r in spec['rows']:
+    idnum.setdefault(str(r[0]), len(idnum))
+  b = lambda x: 'true' if x else 'false'
+  frame = coq_list(['(%d, E %s %s %s)' % ((idnum[str(r[0])],) + tuple(b(cell_class(v) == 'C1') for v in r[1:])) for r in spec['rows']])
+  zl = lambda l: coq_list(['%d' % v for v in l])
+  trip = lambda sets, conv: '(%s, %s, %s)' % tuple(zl(sorted(conv(v) for v in sets[k])) for k in (1, 2, 3))     # FIELDS: all, c, t, x, ...
+  return '(%s, %s, %s, %s, %s)' % (frame, zl([idnum[g] for g in res['subset']]), trip(res['idx'], int),
+                                   trip(res['ids'], lambda g: idnum[g]), trip(res['full'], lambda g: idnum[g]))
 
 
 def _one(args):
@@ -225,7 +242,7 @@ def _one(args):
 
 def run(tier):
   ck = Check('C16', tier)
-  ck.prove('props/C16.v', gen_targets=['geoassignments'], extra=['harness/RunC16.vo'])
+  ck.prove('props/C16.v', gen_targets=['geoassignments', 'eligassign'], extra=['harness/RunC16.vo'])
   rng = random.Random(ck.seed * 1000003 + 16)
   n = common.sz(tier, 500, 20000)
   specs = [gen_spec(rng, i, malformed=(i % 3 == 2)) for i in range(n)]
@@ -254,6 +271,7 @@ def run(tier):
       ck.fail('elig-' + ('validation' if r['outcome'] != 'accept' or not spec_truth(s) else 'partition'),
               fails[0], {'spec': s, 'result': r, 'all_failures': fails[:5]})
     terms.append(encode(s, r))
+  gterms = [(i, t) for i, t in ((i, gencode(s, r)) for i, (s, r) in enumerate(zip(specs, results))) if t is not None]
   ck.sample({'spec': specs[0], 'result': results[0]})
   ck.sample({'spec': specs[2], 'result': results[2]})
   jobs = []
@@ -261,15 +279,26 @@ def run(tier):
   for k in range(0, len(terms), shard):
     jobs.append(('c16_cases_%d' % (k // shard), PRELUDE + 'Definition cases : list case := %s.\nEval vm_compute in (mismatches agrees cases).\n'
                  % coq_list(terms[k:k + shard]).replace('; ({|', ';\n ({|')))
+  for k in range(0, len(gterms), shard):
+    jobs.append(('c16_gen_%d' % (k // shard), GPRELUDE + 'Definition cases : list gcase := %s.\nEval vm_compute in (mismatches gagrees cases).\n'
+                 % coq_list([t for _, t in gterms[k:k + shard]]).replace('; ([', ';\n ([')))
   res = common.coq_eval_many(jobs)
-  bad = []
+  bad, gbad = [], []
   for name, (rc, out) in res.items():
     mm = common.parse_nat_list(out) if rc == 0 else None
     if mm is None:
       ck.tie_broken('correspondence', 'model evaluation failed (%s)' % name, out[-1500:])
+    elif name.startswith('c16_gen_'):
+      base = int(name.split('_')[-1]) * shard
+      gbad += [gterms[base + i][0] for i in mm]
     else:
       base = int(name.split('_')[-1]) * shard
       bad += [base + i for i in mm]
+  if gbad:
+    i = sorted(gbad)[0]
+    ck.tie_broken('correspondence', 'translated get_eligible_assignments (gen/Gen_EligAssign.v) vs the implementation on %d of %d queries'
+                  % (len(gbad), len(gterms)), {'spec': specs[i], 'result': results[i]})
+  ck.cov['translated_get_eligible_assignments_vs_impl'] = {'queries': len(gterms), 'disagreements': len(gbad)}
   if bad:
     i = sorted(bad)[0]
     ck.tie_broken('correspondence', 'GeoEligibility vs model/Elig.v on %d of %d tables' % (len(bad), len(specs)),
